@@ -120,10 +120,10 @@ Qed.
 Lemma slot_at_out a i : length (tab a) <= i -> slot_at a i = free_slot.
 Proof. intros H. unfold slot_at. apply nth_overflow. exact H. Qed.
 
-Lemma slot_at_upd_eq t led i s : i < length t -> slot_at (mkadf (upd t i s) led) i = s.
+Lemma slot_at_upd_eq t led c i s : i < length t -> slot_at (mkadf (upd t i s) led c) i = s.
 Proof. intros H. unfold slot_at. simpl. apply nth_upd_eq. exact H. Qed.
 
-Lemma slot_at_upd_neq t led i j s : i <> j -> slot_at (mkadf (upd t i s) led) j = slot_at (mkadf t led) j.
+Lemma slot_at_upd_neq t led c i j s : i <> j -> slot_at (mkadf (upd t i s) led c) j = slot_at (mkadf t led c) j.
 Proof. intros H. unfold slot_at. simpl. apply nth_upd_neq. exact H. Qed.
 
 Lemma upd_out {A} (l : list A) n v : length l <= n -> upd l n v = l.
@@ -485,6 +485,115 @@ Proof.
 Qed.
 End Machine.
 
+(* ============================================================================================ termination (FixA) *)
+(* link entries not yet handed to a recursive call *)
+Definition gr (stk : list frame) (i : nat) (s : slot) : nat :=
+  if Nat.eqb (in_use s) 0 then 0 else length (links s) - prog stk i.
+Definition wt (f : frame) : nat := match f with FEnter _ => 2 | FLoop _ _ => 1 end.
+Definition phi (a : adf) (stk : list frame) : nat := 3 * tsum (gr stk) a + list_sum (map wt stk).
+Definition tlinks (a : adf) : nat := tsum (gr []) a.
+
+Lemma gr_free stk : gfree (gr stk). Proof. intros i. reflexivity. Qed.
+#[global] Hint Resolve gr_free : core.
+
+Section Termination.
+Variable w : world.
+Variable U : list nat.
+
+Lemma enter_prog0 a i rest : Inv w a U (FEnter i :: rest) -> in_use (slot_at a i) = 1 -> prog rest i = 0.
+Proof.
+  intros H E. destruct (Nat.eq_dec (prog rest i) 0) as [|Hne]; auto. exfalso.
+  pose proof (prog_in _ _ Hne) as Hin. pose proof (in_fslot_cnt _ _ Hin) as P. simpl in P.
+  rewrite (inv_R _ _ _ _ H) in E. unfold refs in E. simpl in E. rewrite Nat.eqb_refl in E. lia.
+Qed.
+
+Lemma cm_step_phi a stk e m' :
+  Inv w a U stk -> cm_step FixA (mkcm a stk e) = inl m' -> phi (cm_a m') (cm_stk m') < phi a stk.
+Proof.
+  intros H St. pose proof (cm_step_inv w U _ _ _ _ H St) as [Hi' _].
+  unfold cm_step in St. simpl in St. destruct stk as [|[i|i k] rest]; [discriminate| |].
+  - pose proof (enter_in_use _ _ _ _ _ H) as Hu. pose proof (in_use_lt _ _ Hu) as Hlt.
+    destruct (Nat.leb_spec (length (tab a)) i); [lia|]. simpl in St.
+    destruct (Nat.eqb_spec (in_use (slot_at a i)) 0); [congruence|].
+    destruct (Nat.eqb_spec (in_use (slot_at a i)) 1) as [E1|E1]; inversion St; subst; simpl in *.
+    + (* enter -> loop *)
+      pose proof (enter_prog0 _ _ _ H E1) as P0. unfold phi. simpl.
+      assert (T : tsum (gr (FLoop i 0 :: rest)) a = tsum (gr (FEnter i :: rest)) a).
+      { apply tsum_ext. intros j. unfold gr. simpl. destruct (Nat.eqb_spec i j); [subst; rewrite P0|]; reflexivity. }
+      rewrite T. lia.
+    + (* decrement *)
+      unfold phi. simpl.
+      set (a1 := set_in_use a i (in_use (slot_at a i) - 1)) in *.
+      assert (T : tsum (gr rest) (free_if_idle a1) = tsum (gr (FEnter i :: rest)) a).
+      { apply tsum_ext2; auto. intros j.
+        assert (Hd : Inv w a1 U rest) by (apply step_dec; auto; lia).
+        rewrite <- (free_if_idle_slots a1 (inv_W _ _ _ _ Hd)).
+        destruct (Nat.eq_dec j i) as [->|Hj].
+        - unfold a1, set_in_use. rewrite slot_set_slot_eq by exact Hlt. unfold gr. simpl.
+          destruct (Nat.eqb_spec (in_use (slot_at a i) - 1) 0); [lia|].
+          destruct (Nat.eqb_spec (in_use (slot_at a i)) 0); [lia|]. reflexivity.
+        - unfold a1, set_in_use. rewrite slot_set_slot_neq by auto. reflexivity. }
+      rewrite T. lia.
+  - assert (E : in_use (slot_at a i) = 1) by (eapply (inv_F _ _ _ _ H); left; reflexivity).
+    destruct (Nat.ltb_spec k (length (links (slot_at a i)))) as [Hk|Hk].
+    + (* push *)
+      inversion St; subst; simpl in *. unfold phi. simpl.
+      set (l := nth k (links (slot_at a i)) 0).
+      pose proof (tsum_change2 (gr (FLoop i k :: rest)) (gr (FEnter l :: FLoop i (S k) :: rest)) a a i
+                    (gr_free _) (gr_free _)) as T.
+      assert (G1 : gr (FLoop i k :: rest) i (slot_at a i) = length (links (slot_at a i)) - k).
+      { unfold gr. simpl. rewrite Nat.eqb_refl, E. reflexivity. }
+      assert (G2 : gr (FEnter l :: FLoop i (S k) :: rest) i (slot_at a i) = length (links (slot_at a i)) - S k).
+      { unfold gr. simpl. rewrite Nat.eqb_refl, E. reflexivity. }
+      rewrite G1, G2 in T.
+      specialize (T ltac:(intros j Hj; unfold gr; simpl; destruct (Nat.eqb_spec i j); [congruence|]; reflexivity)).
+      lia.
+    + (* finish *)
+      rewrite E in St. simpl in St. inversion St; subst; simpl in *. unfold phi. simpl.
+      pose proof (in_use_lt a i ltac:(lia)) as Hlt.
+      destruct (step_finish _ _ _ _ _ _ H ltac:(lia)) as [Hf _].
+      assert (T : tsum (gr rest) (free_if_idle (really_close a i)) = tsum (gr (FLoop i k :: rest)) a).
+      { apply tsum_ext2; auto. intros j.
+        rewrite <- (free_if_idle_slots _ (inv_W _ _ _ _ Hf)).
+        destruct (Nat.eq_dec j i) as [->|Hj].
+        - rewrite slot_really_close_eq by exact Hlt. unfold gr. simpl. rewrite Nat.eqb_refl, E. simpl. lia.
+        - rewrite slot_really_close_neq by auto. unfold gr. simpl. destruct (Nat.eqb_spec i j); [congruence|]. reflexivity. }
+      rewrite T. lia.
+Qed.
+
+Lemma cm_run_terminates fuel : forall a stk,
+  Inv w a U stk -> phi a stk < fuel -> exists a', loopN (cm_step FixA) fuel (mkcm a stk 0) = inr (a', 0) /\ Inv w a' U [].
+Proof.
+  induction fuel as [|fuel IH]; intros a stk H Hp; [lia|].
+  simpl. destruct (cm_step FixA (mkcm a stk 0)) as [m'|[a1 e1]] eqn:St.
+  - destruct (cm_step_inv w U _ _ _ _ H St) as [Hi He]. pose proof (cm_step_phi _ _ _ _ H St) as Hd.
+    destruct m' as [a1 stk1 e1]. simpl in *. rewrite (He eq_refl). apply IH; auto. lia.
+  - assert (R : loopN (cm_step FixA) (S fuel) (mkcm a stk 0) = inr (a1, e1)) by (simpl; rewrite St; reflexivity).
+    destruct (cm_run_inv w U _ _ _ _ _ H R) as [-> Hi]. eauto.
+Qed.
+
+(* ADFI_close_file (repaired) TERMINATES from every state satisfying the invariant, within 3 * (link entries of the
+   files in use) + 3 steps, drops exactly the caller's reference and reports NO_ERROR *)
+Lemma close_machine_total fuel a i :
+  Inv w a (i :: U) [] -> 3 * tlinks a + 3 <= fuel ->
+  exists a', adfi_close_file FixA fuel a i = Some (a', 0) /\ Inv w a' U [].
+Proof.
+  intros H Hf.
+  assert (H1 : Inv w a U [FEnter i]).
+  { destruct H as [R W D L F N]. constructor; auto.
+    - intros x. rewrite R. unfold refs. simpl.
+      assert (T : tsum (gl [FEnter i] x) a = tsum (gl [] x) a) by (apply tsum_ext; intros j; reflexivity).
+      rewrite T. lia.
+    - intros i0 k [Heq|[]]. discriminate. }
+  assert (Hp : phi a [FEnter i] < fuel).
+  { unfold phi, tlinks in *. simpl.
+    assert (T : tsum (gr [FEnter i]) a = tsum (gr []) a) by (apply tsum_ext; intros j; reflexivity).
+    rewrite T. lia. }
+  destruct (cm_run_terminates fuel a [FEnter i] H1 Hp) as (a' & Run & Hi).
+  exists a'. unfold adfi_close_file. rewrite Run. auto.
+Qed.
+End Termination.
+
 (* ============================================================================================ top-level ADF operations *)
 Lemma Inv_U w a U U' stk : (forall x, cnt x U = cnt x U') -> Inv w a U stk -> Inv w a U' stk.
 Proof.
@@ -510,7 +619,7 @@ Proof.
   - split; [lia|]. intros H. apply IH2. lia.
 Qed.
 
-Lemma slot_at_app_free t led k i : slot_at (mkadf (t ++ repeat free_slot k) led) i = slot_at (mkadf t led) i.
+Lemma slot_at_app_free t led c k i : slot_at (mkadf (t ++ repeat free_slot k) led c) i = slot_at (mkadf t led c) i.
 Proof.
   unfold slot_at. simpl. destruct (Nat.lt_ge_cases i (length t)) as [H|H].
   - apply app_nth1. exact H.
@@ -532,8 +641,8 @@ Proof.
   unfold adfi_open_file. destruct (find_free_spec (tab a)) as [F1 F2].
   set (i := find_free (tab a)) in *.
   set (t1 := if i <? length (tab a) then tab a else tab a ++ repeat free_slot ADF_FILE_INC).
-  assert (S1 : forall j led, slot_at (mkadf t1 led) j = slot_at a j).
-  { intros j led. unfold t1. destruct (i <? length (tab a)); [reflexivity|]. rewrite slot_at_app_free. reflexivity. }
+  assert (S1 : forall j led c, slot_at (mkadf t1 led c) j = slot_at a j).
+  { intros j led c. unfold t1. destruct (i <? length (tab a)); [reflexivity|]. rewrite slot_at_app_free. reflexivity. }
   assert (Li : i < length t1).
   { unfold t1. destruct (Nat.ltb_spec i (length (tab a))); [lia|]. rewrite app_length, repeat_length. unfold ADF_FILE_INC. lia. }
   assert (Z : in_use (slot_at a i) = 0).
@@ -798,6 +907,9 @@ Proof.
   destruct (kind_of w n); try apply G. intros Q. inversion Q; subst. exact H.
 Qed.
 
+Lemma Inv_set_cache w a U stk c : Inv w a U stk -> Inv w (set_cache a c) U stk.
+Proof. intros H. apply (Inv_same w a); auto. Qed.
+
 Lemma chase_inv w a U fuel cur n a' r :
   Inv w a U [] -> chase FixA fuel w a cur n = Some (a', r) -> Inv w a' U [].
 Proof.
@@ -806,21 +918,26 @@ Proof.
   apply orb_false_elim in Bad. destruct Bad as [_ Bu]. apply Nat.eqb_neq in Bu.
   destruct (fname (slot_at a cur)) as [nm|] eqn:Nc; [|intros Q; inversion Q; subst; exact H].
   destruct (has_link w nm n) eqn:Hw; simpl; [|intros Q; inversion Q; subst; exact H].
+  destruct (match lcache a with
+            | Some (c, m, li) => if Nat.eqb c cur && Nat.eqb m n then Some li else None
+            | None => None
+            end) as [hli|].
+  { destruct ((length (tab a) <=? hli) || Nat.eqb (in_use (slot_at a hli)) 0); intros Q; inversion Q; subst; exact H. }
   assert (G : match find_name (tab a) n with
-        | Some li => Some (link_add a cur li true, Some li)
+        | Some li => Some (set_cache (link_add a cur li true) (Some (cur, n, li)), Some li)
         | None => match adf_database_open FixA fuel w a n true with
                   | None => None
                   | Some (a1, None) => Some (a1, None)
-                  | Some (a1, Some li) => Some (link_add a1 cur li false, Some li)
+                  | Some (a1, Some li) => Some (set_cache (link_add a1 cur li false) (Some (cur, n, li)), Some li)
                   end
         end = Some (a', r) -> Inv w a' U []).
   { destruct (find_name (tab a) n) as [li|] eqn:Fn.
     - intros Q. inversion Q; subst. destruct (find_name_spec _ _ _ Fn) as (A & B & C).
-      eapply link_add_found_inv; eauto.
+      apply Inv_set_cache. eapply link_add_found_inv; eauto.
     - destruct (adf_database_open FixA fuel w a n true) as [[a1 [li|]]|] eqn:Op; [| |discriminate].
       + intros Q. inversion Q; subst. destruct (adf_open_inv _ _ _ _ _ _ _ _ H Op) as (Hi & Z & E1 & E2).
         assert (cur <> li) by (intros ->; congruence).
-        eapply (link_add_new_inv w a1 U cur li nm n); eauto.
+        apply Inv_set_cache. eapply (link_add_new_inv w a1 U cur li nm n); eauto.
         * rewrite E2 by auto. exact Bu.
         * rewrite E1. reflexivity.
         * rewrite E2 by auto. exact Nc.
@@ -1036,9 +1153,9 @@ Proof.
     intros Q. inversion Q; subst. eapply IH; [|exact Rn]. eapply step_inv; eauto.
 Qed.
 
-Lemma Inv_init w : Inv w (mkadf [] []) [] [].
+Lemma Inv_init w : Inv w (mkadf [] [] None) [] [].
 Proof.
-  assert (S0 : forall i, slot_at (mkadf [] []) i = free_slot) by (intros [|i]; reflexivity).
+  assert (S0 : forall i, slot_at (mkadf [] [] None) i = free_slot) by (intros [|i]; reflexivity).
   constructor.
   - intros x. rewrite S0. reflexivity.
   - intros i _. apply S0.
@@ -1131,7 +1248,8 @@ Proof. run_concrete. repeat split; reflexivity. Qed.
 (* W2: two files that link to each other.  ADFI_close_file never returns, whatever the fuel (the C: stack overflow). *)
 Definition w2 : world := mkW [KOk; KOk] [(0, 1); (1, 0)].
 Definition ops2 : list op := [OOpen 0 false; OWalk 1 [1; 0]; OClose 1].
-Definition a2 : adf := mkadf [mkslot 2 true (Some 0) [1]; mkslot 1 true (Some 1) [0]; free_slot; free_slot; free_slot] [1; 0].
+Definition a2 : adf := mkadf [mkslot 2 true (Some 0) [1]; mkslot 1 true (Some 1) [0]; free_slot; free_slot; free_slot] [1; 0]
+                            (Some (1, 0, 0)).
 
 Definition top_ok (stk : list frame) : Prop :=
   match stk with
@@ -1148,7 +1266,7 @@ Qed.
 Lemma refuted_cycle : forall fuel, run Faithful fuel w2 io_init [] ops2 = None.
 Proof.
   intros fuel. unfold ops2.
-  set (s1 := mkio (mkadf [mkslot 1 true (Some 0) []; free_slot; free_slot; free_slot; free_slot] [0])
+  set (s1 := mkio (mkadf [mkslot 1 true (Some 0) []; free_slot; free_slot; free_slot; free_slot] [0] None)
                   [Some 0; None; None; None; None] 1).
   set (s2 := mkio a2 [Some 0; None; None; None; None] 1).
   assert (S1 : step Faithful fuel w2 io_init (OOpen 0 false) = Some (s1, ResOpen (Some 1))) by reflexivity.
